@@ -17,13 +17,14 @@ VARIABLES c, stage
 TX1 == TBase("X1")
 G == [X1 |-> TBool(TX1), S1 |-> TBool(TTuple(<<TX1, TX1>>)), S2 |-> TBool(TBool(TX1)), C1 |-> TBool(TBase("C1")),
       F1 |-> TBool(TBool(TX1)), F2 |-> TBool(TRad("R1")), F3 |-> TBool(TX1), F4 |-> TBool(TX1),
-      F5 |-> TBool(TTuple(<<TX1, TX1>>)), F6 |-> TBool(TX1), P1 |-> TLogic, A1 |-> TLogic]
+      F5 |-> TBool(TTuple(<<TX1, TX1>>)), F6 |-> TBool(TX1), F7 |-> TBool(TBool(TRad("R1"))), P1 |-> TLogic, A1 |-> TLogic]
 F == [F1 |-> [args |-> <<[name |-> "a", type |-> TBool(TX1)]>>],
       F2 |-> [args |-> <<[name |-> "a", type |-> TBool(TRad("R1"))], [name |-> "b", type |-> TRad("R1")]>>],
       F3 |-> [args |-> <<[name |-> "a", type |-> TBool(TX1)]>>],
       F4 |-> [args |-> <<[name |-> "a", type |-> TBool(TX1)], [name |-> "b", type |-> TBool(TX1)]>>],
       F5 |-> [args |-> <<[name |-> "a", type |-> TBool(TX1)]>>],
       F6 |-> [args |-> <<[name |-> "a", type |-> TBool(TTuple(<<TX1, TX1>>))]>>],
+      F7 |-> [args |-> <<[name |-> "a", type |-> TBool(TRad("R1"))]>>],
       P1 |-> [args |-> <<[name |-> "a", type |-> TBool(TX1)]>>]]
 La == Loc("a")  Lb == Loc("b")  Lc == Loc("c")
 FD == [F1 |-> [args |-> <<"a">>, body |-> Node("ENUM", <<La>>)],
@@ -33,6 +34,8 @@ FD == [F1 |-> [args |-> <<"a">>, body |-> Node("ENUM", <<La>>)],
        \* F5, F6: the first local of the body is a pair in one and an element in the other (nested calls must keep their locals apart)
        F5 |-> [args |-> <<"a">>, body |-> Node("DECLARATIVE", <<Lb, Node("DECART", <<La, La>>), Node("AND", <<Node("EQUAL", <<La, La>>), Node("IN", <<Idx("SMALLPR", <<1>>, <<Lb>>), La>>)>>)>>)],
        F6 |-> [args |-> <<"a">>, body |-> Node("DECLARATIVE", <<Lb, Idx("BIGPR", <<1>>, <<La>>), Node("EXISTS", <<Lc, La, Node("EQUAL", <<Idx("SMALLPR", <<1>>, <<Lc>>), Lb>>)>>)>>)],
+       \* F7 is a property by itself (power set) and uses its parameter where only a value may stand: a property argument is improper
+       F7 |-> [args |-> <<"a">>, body |-> Node("SET_MINUS", <<Node("BOOLEAN", <<La>>), Node("ENUM", <<La>>)>>)],
        P1 |-> [args |-> <<"a">>, body |-> Node("EQUAL", <<La, Glob("X1")>>)]]
 Interps == <<
   [X1 |-> {1,2}, S1 |-> {<<1,1>>, <<1,2>>}, S2 |-> {{}, {1}}, C1 |-> {1,2,3}, A1 |-> TRUE],
@@ -106,7 +109,7 @@ SeedBind == {Node(q, <<TupAB, d, p>>) : q \in Quant \cup {"DECLARATIVE"}, d \in 
        \cup {Node("AND", <<Node("FORALL", <<La, Glob("X1"), Node("EQUAL", <<La, La>>)>>), Node("EQUAL", <<La, Glob("X1")>>)>>),
              Node("AND", <<Node("FORALL", <<La, Glob("X1"), Node("EQUAL", <<La, La>>)>>), Node("EXISTS", <<La, Glob("S2"), Node("EQUAL", <<La, La>>)>>)>>)}
 Args == D0 \cup {Node("ENUM", <<Empty>>), One, Node("BOOLEAN", <<Glob("X1")>>), Node("ENUM", <<Glob("X1")>>), Node("PLUS", <<IntLit(1), IntLit(1)>>), Call("F1", <<Glob("X1")>>), Call("F3", <<Glob("X1")>>)}
-SeedCall == {Call(f, <<x>>) : f \in {"F1", "F3", "P1", "F2", "F9"}, x \in Args}
+SeedCall == {Call(f, <<x>>) : f \in {"F1", "F3", "P1", "F2", "F7", "F9"}, x \in Args}
        \cup {Call(f, <<x, y>>) : f \in {"F2", "F1"}, x \in Args, y \in Args}
        \cup {Glob("F1"), Glob("P1"), Glob("D7")}
        \* nested calls of functions whose bodies use the same local names (argument substitution must be capture-free)
@@ -183,7 +186,13 @@ FuncBodiesAB == {Node("UNION", <<La, Node("ENUM", <<Lb>>)>>), Node("IN", <<Lb, L
 SeedFunc == {FDef(<<Arg("a", d)>>, b) : d \in {Glob("X1"), BX1, X1xX1, Glob("S1"), Node("BOOLEAN", <<Rad("R1")>>), IntLit(1), Glob("D7")}, b \in FuncBodiesA}
        \cup {FDef(<<Arg("a", d1), Arg("b", d2)>>, b) : d1 \in {BX1, Node("BOOLEAN", <<Rad("R1")>>), Glob("S2")}, d2 \in {Glob("X1"), La, Rad("R1"), BX1, Glob("D7"), IntLit(1)}, b \in FuncBodiesAB}
        \cup {FDef(<<Arg("a", BX1), Arg("a", Glob("X1"))>>, La), FDef(<<Arg("a", BX1)>>, Node("FORALL", <<La, Glob("X1"), Node("EQUAL", <<La, La>>)>>))}
-Seeds == UNION {SeedFilter, SeedRec, SeedImp, SeedBind, SeedCall, SeedScope, SeedAxiom, SeedLazy, SeedNested, SeedNested2, SeedSibling, SeedFunc}
+\* enumerations and tuples of three elements: the element types are merged one after the other (the empty set and integer
+\* literals are the least specific), so the order of the elements must not matter
+E3 == {Empty, Glob("X1"), Glob("C1"), IntLit(1), Glob("S2")}
+T3 == {Node("TUPLE", <<x, y>>) : x \in {Empty, Glob("X1")}, y \in {Empty, Glob("C1")}}
+SeedEnum3 == {Node("ENUM", <<x, y, z>>) : x \in E3, y \in E3, z \in E3} \cup {Node("ENUM", <<x, y, z>>) : x \in T3, y \in T3, z \in T3}
+             \cup {Node("TUPLE", <<x, y, z>>) : x \in {Empty, Glob("X1")}, y \in {Empty, IntLit(1)}, z \in {Glob("C1"), Empty}}
+Seeds == UNION {SeedEnum3, SeedFilter, SeedRec, SeedImp, SeedBind, SeedCall, SeedScope, SeedAxiom, SeedLazy, SeedNested, SeedNested2, SeedSibling, SeedFunc}
 
 \* value classes of the context: sets and structures with data are values, a function has the class of its body
 GC0 == [n \in {"X1", "C1", "S1", "S2", "A1"} |-> "value"]
